@@ -1145,6 +1145,9 @@ theorem k10_step (cfg : Cfg) (fuel : Nat) (s : StR) (m6 : RM6) (m : RM10) (h : I
   | syncMode sm =>
     simp only [stepRWith, fold6_nil, fold10_nil]
     exact k10_core hk s.core rfl rfl rfl rfl rfl rfl _ _ _
+  | cancelMode ck =>
+    simp only [stepRWith, fold6_nil, fold10_nil]
+    exact hk
   | flat e =>
     cases e with
     | make id ex =>
